@@ -115,6 +115,30 @@ impl<A: Ident, B: Ident> Ident for (A, B) {
         format!("({}, {})", self.0.ident(), self.1.ident())
     }
 }
+/// A user's struct with the quantity's fields merged into its own (`#[serde(flatten)]`).
+#[derive(Serialize, Deserialize)]
+pub struct Tagged<T> {
+    pub id: u32,
+    #[serde(flatten)]
+    pub q: T,
+}
+/// A user's struct with quantities as fields, also nested two levels deep.
+#[derive(Serialize, Deserialize)]
+pub struct Record<T> {
+    pub label: String,
+    pub q: T,
+    pub grid: Vec<Vec<T>>,
+}
+impl<T: Ident> Ident for Tagged<T> {
+    fn ident(&self) -> String {
+        format!("Tagged#{}({})", self.id, self.q.ident())
+    }
+}
+impl<T: Ident> Ident for Record<T> {
+    fn ident(&self) -> String {
+        format!("Record {:?} ({}) {}", self.label, self.q.ident(), self.grid.ident())
+    }
+}
 impl<T: Ident> Ident for BTreeMap<String, T> {
     fn ident(&self) -> String {
         format!("{{{}}}", self.iter().map(|(k, v)| format!("{}: {}", k, v.ident())).collect::<Vec<_>>().join(", "))
@@ -230,7 +254,7 @@ fn variant_name<U: Debug>(type_name: &str, idx: usize, u: &U) -> String {
         .unwrap_or_else(|| format!("{:?}", u))
 }
 
-pub const GROUP_FORMS: usize = 5;
+pub const GROUP_FORMS: usize = 7;
 
 fn make<Q>(name: &'static str, what: &SWhat) -> Box<dyn Subject>
 where
@@ -268,6 +292,15 @@ where
                 3 => {
                     let v: Option<QV<Q>> = items.first().map(|(u, a)| qty(*u, *a));
                     Box::new(Held { describe: format!("Option {} of {}", v.ident(), name), v, type_name: name, shape: "option", unit_variant: None })
+                }
+                5 => {
+                    let v = Tagged { id: items.len() as u32 + 7, q: qty(get(0).0, get(0).1) };
+                    Box::new(Held { describe: format!("flattened {} of {}", v.ident(), name), v, type_name: name, shape: "flatten", unit_variant: None })
+                }
+                6 => {
+                    let rest: Vec<QV<Q>> = items.iter().skip(1).map(|(u, a)| qty(*u, *a)).collect();
+                    let v = Record { label: format!("n{}", items.len()), q: qty(get(0).0, get(0).1), grid: vec![rest, Vec::new()] };
+                    Box::new(Held { describe: format!("{} of {}", v.ident(), name), v, type_name: name, shape: "record", unit_variant: None })
                 }
                 _ => {
                     let v: BTreeMap<String, QV<Q>> =
